@@ -196,15 +196,22 @@ def valid(seq):
     may be followed by another start(): the retry after a failed start() (it must leave the emitters that are already running
     alone, D27) - or, when the named watch had no emitter and the first start() succeeded, a RuntimeError in model and code
     alike"""
-    started = stopped = False
+    started = stopped = injected = False
     starts = 0
     for c in seq:
         if c[0] == "start" and (stopped or started or starts >= 3):
             return False
         if c[0] == "start":
+            # `_emitters` is a set: which of the other emitters a failed start() had already started depends on its
+            # iteration order, so whether a second injected failure strikes (the retry skips running emitters) is not
+            # determined by the call sequence - the retry itself carries no injected failure
+            if injected and c[1] is not None:
+                return False
             starts += 1
             if c[1] is None:
                 started = True
+            else:
+                injected = True
         if c[0] == "stop":
             stopped = True
     return True
